@@ -47,3 +47,27 @@ def memo_rule(ctx, rule_id: str, modules: Iterable[str], floor: int, only=None):
             for p in problems:
                 ctx.violation(fn.fq, p.construct, f"{mod.relpath}:{p.node.lineno}", p.message)
     ctx.floor(nsites, floor, "cache sites")
+
+
+def get_cg(ctx):
+    """Call graph + lock analysis for the current repo (built once per run)."""
+    from ..callgraph import CallGraph, Locks
+
+    repo = ctx.repo
+    if not hasattr(repo, "_cg"):
+        repo._cg = CallGraph(repo)
+        repo._locks = Locks(repo._cg)
+    ctx.extra["call_sites_total"] = repo._cg.n_calls
+    ctx.extra["call_sites_resolved"] = repo._cg.n_resolved
+    ctx.extra["lock_identities"] = sorted(f"{a}.{b}" for a, b in repo._locks.lock_ids)
+    return repo._cg, repo._locks
+
+
+def must_held(ctx, f, node):
+    """Locks certainly held when `node` of function `f` executes (lexical + held-on-entry)."""
+    cg, locks = get_cg(ctx)
+    return locks.held_lex(f, node) | locks.must_held_on_entry().get(f.fq, frozenset())
+
+
+def fmt_locks(s):
+    return "{" + ", ".join(sorted(f"{a}.{b}" for a, b in s)) + "}"
